@@ -274,6 +274,13 @@ func qualifier(pkgPath string) types.Qualifier {
 func (g *valueGen) gen(sv SVal, T types.Type, pkgPath string, imports map[string]string) (string, error) {
 	g.n++
 	name := fmt.Sprintf("v%d", g.n)
+	// a named type that the replay package cannot name (unexported, other package) is built
+	// through its underlying type; verifSet converts when storing into the field
+	if nt, ok := T.(*types.Named); ok && nt.Obj().Pkg() != nil && nt.Obj().Pkg().Path() != pkgPath && !nt.Obj().Exported() {
+		if _, isSt := nt.Underlying().(*types.Struct); !isSt {
+			T = nt.Underlying()
+		}
+	}
 	ts := types.TypeString(T, func(p *types.Package) string {
 		if p.Path() == pkgPath {
 			return ""
@@ -300,6 +307,51 @@ func (g *valueGen) gen(sv SVal, T types.Type, pkgPath string, imports map[string
 		sl, ok := T.Underlying().(*types.Slice)
 		if !ok {
 			return "", fmt.Errorf("unsupported slice type %s", ts)
+		}
+		if st, isSt := sl.Elem().Underlying().(*types.Struct); isSt {
+			// slice of flat structs with integer fields: read each field memory
+			o, err := g.intOf(sv.obj())
+			if err != nil {
+				return "", err
+			}
+			l, err := g.intOf(sv.ln())
+			if err != nil {
+				return "", err
+			}
+			if o.Sign() == 0 {
+				g.decls = append(g.decls, fmt.Sprintf("var %s %s = nil", name, ts))
+				return name, nil
+			}
+			if !l.IsInt64() || l.Int64() > 4096 {
+				return "", fmt.Errorf("model length %s too large to replay", l)
+			}
+			es := types.TypeString(sl.Elem(), func(p *types.Package) string {
+				if p.Path() == pkgPath {
+					return ""
+				}
+				imports[p.Path()] = p.Name()
+				return p.Name()
+			})
+			var elems []string
+			for i := int64(0); i < l.Int64(); i++ {
+				var fs []string
+				for f := 0; f < st.NumFields(); f++ {
+					fld := st.Field(f)
+					if b, ok := fld.Type().Underlying().(*types.Basic); !ok || b.Info()&types.IsInteger == 0 {
+						return "", fmt.Errorf("replay of %s parameters is not supported", ts)
+					}
+					memName := "$M0_" + sanitize(typeKey(sl.Elem())+"."+fld.Name())
+					v, err := g.intOf(fmt.Sprintf("(select (select %s %s) (+ %s %d))", memName, sv.obj(), sv.off(), i))
+					if err != nil {
+						return "", err
+					}
+					fs = append(fs, fmt.Sprintf("%s: %s", fld.Name(), v.String()))
+				}
+				elems = append(elems, "{"+strings.Join(fs, ", ")+"}")
+			}
+			g.decls = append(g.decls, fmt.Sprintf("var %s %s = []%s{%s}", name, ts, es, strings.Join(elems, ", ")))
+			g.notes = append(g.notes, fmt.Sprintf("%s = {%s}", name, strings.Join(elems, ", ")))
+			return name, nil
 		}
 		if b, ok := sl.Elem().Underlying().(*types.Basic); !ok || b.Kind() != types.Uint8 {
 			return "", fmt.Errorf("replay of %s parameters is not supported", ts)
